@@ -102,9 +102,12 @@ impl<S: BitmapSlice + Send + Sync> PassthroughFs<S> {
                # does not follow symbolic links) and an existing object is never opened or truncated through it.  open(2) also says: "When O_PATH is
                # specified in flags, flag bits other than O_CLOEXEC, O_DIRECTORY, and O_NOFOLLOW are ignored" - the CLIENT chooses `flags`, so the grant
                # excludes O_PATH without O_NOFOLLOW (finding D28: the first version of this grant did not, and the code relied on O_EXCL alone)
-               requires=['forall|f: i32| (f & 0o100i32 != 0 && f & 0o200i32 != 0 && (f & 0o400000i32 != 0 || f & 0o10000000i32 == 0) && f & flags == flags) ==> #[trigger] openat_ok(f) // [C06.safeopen.create_excl] a creating open is granted only with O_CREAT|O_EXCL (plus the requested flags) - and, as the kernel IGNORES both under O_PATH, only with O_NOFOLLOW or without O_PATH'],
+               # Since the D28 repair the code passes O_NOFOLLOW always; O_EXCL is then no longer what C06 rests on (dropping it - seed C06-b rebased - opens an
+               # existing object INSIDE the export: a C05 matter, [C05.create_file_excl.call], not a C06 one), so the grant accepts either form
+               requires=['forall|f: i32| ((f & 0o400000i32 != 0 || (f & 0o100i32 != 0 && f & 0o200i32 != 0 && f & 0o10000000i32 == 0)) && f & flags == flags) ==> #[trigger] openat_ok(f) // [C06.safeopen.create_excl] the open that may create is granted only in a form that cannot follow a link in the last component: with O_NOFOLLOW, or with O_CREAT|O_EXCL and without O_PATH (under O_PATH the kernel IGNORES O_CREAT|O_EXCL)'],
                ensures=['res is Ok && res->Ok_0 is None ==> flags & 0o200i32 == 0 // [C06.safeopen.create_excl.fallback] "exists" is swallowed only when the client did not ask for O_EXCL'],
-               splices=[('^', 'after', 'proof { assert(forall|f: i32| #![auto] (f | 0o100i32 | 0o200i32) & 0o100i32 != 0 && (f | 0o100i32 | 0o200i32) & 0o200i32 != 0 && (f | 0o100i32 | 0o200i32) & f == f) by (bit_vector); assert(forall|f: i32| #![auto] (f | 0o100i32 | 0o200i32 | 0o400000i32) & 0o100i32 != 0 && (f | 0o100i32 | 0o200i32 | 0o400000i32) & 0o200i32 != 0 && (f | 0o100i32 | 0o200i32 | 0o400000i32) & 0o400000i32 != 0 && (f | 0o100i32 | 0o200i32 | 0o400000i32) & f == f) by (bit_vector); }')],
+               # general or-chain facts (not tied to the order or number of the flags or-ed together: a re-ordered or extended flag expression must not lose the proof)
+               splices=[('^', 'after', 'proof { assert(forall|a: i32, b: i32| #![trigger a | b] (a | b) & b == b && (a | b) & a == a) by (bit_vector); assert(forall|x: i32, b: i32, m: i32| #![trigger (x | b) & m] x & m == m ==> (x | b) & m == m) by (bit_vector); assert(forall|x: i32, b: i32, m: i32| #![trigger (b | x) & m] x & m == m ==> (b | x) & m == m) by (bit_vector); assert(0o400000i32 != 0 && 0o100i32 != 0 && 0o200i32 != 0); }')],
                props=['C06'], canary=True),
             Fn(PT, 'impl<S: BitmapSlice + Send + Sync> PassthroughFs<S>', 'open_file_and_handle',
                sig_subst=[('dir: &impl AsRawFd', 'dir: &File')],
